@@ -39,7 +39,7 @@ def assign_callbacks(rng, decls, regs, path=''):
                 c += 'v'
             elif r < 0.55:
                 regs.append(p)
-            if d.typ in ('int', 'float') and not d.is_list and rng.random() < 0.3:
+            if d.typ in ('int', 'float', 'str') and not d.is_list and rng.random() < 0.3:
                 c += 'w'
             d.cbs = c
         elif d.typ == 'func':
@@ -166,6 +166,12 @@ def script(spec):
     for d in wopts[:3]:
         L.append('note v2')
         L.append('init 0 %d 0' % sid)
+        if d.typ == 'str':
+            # strings cannot be rewritten (the callback gets the string itself); accept, veto, and veto of a NULL value
+            L += ['v2mode 0', 'setstr 0 %s %s' % (hx(d.name), hx('accepted')), 'get 0 str %s 0' % hx(d.name),
+                  'v2mode 1', 'setstr 0 %s %s' % (hx(d.name), hx('vetoed')), 'get 0 str %s 0' % hx(d.name),
+                  'v2mode 1', 'setstr 0 %s -' % hx(d.name), 'get 0 str %s 0' % hx(d.name), 'v2mode 0', 'free 0']
+            continue
         val = '5' if d.typ == 'int' else '0x1p2'
         L += ['v2mode 0', 'set%s 0 %s %s' % (d.typ, hx(d.name), val), 'get 0 %s %s 0' % (d.typ, hx(d.name)),
               'v2mode 2', 'set%s 0 %s %s' % (d.typ, hx(d.name), val), 'get 0 %s %s 0' % (d.typ, hx(d.name)),
@@ -350,6 +356,16 @@ def judge(spec, events, death):
         rets = [e for e in g if e.get('ev') == 'r' and e.get('op', '').startswith('set')]
         cbs = [e for e in g if e.get('ev') == 'cb' and e.get('k') == 'valid2']
         if len(gets) < 3 or len(rets) < 3:
+            continue
+        if d.typ == 'str':
+            sv = [unhx(x['v']) for x in gets]
+            v.notes['preset_validator_checks'] = v.notes.get('preset_validator_checks', 0) + 1
+            if len(cbs) != 3:
+                v.bad('validcb2:not-called:str', 'pre-set validator of string option %s called %d times for 3 setter calls (one with a NULL value)' % (d.name, len(cbs)))
+            elif rets[0]['rc'] != 0 or sv[0] != 'accepted':
+                v.bad('validcb2:accept:str', 'accepting validator: rc=%s value=%r' % (rets[0]['rc'], sv[0]))
+            elif rets[1]['rc'] == 0 or sv[1] != 'accepted' or rets[2]['rc'] == 0 or sv[2] != 'accepted':
+                v.bad('validcb2:veto:str', 'vetoing validator on a string: rc=%s/%s values %r/%r (must stay %r)' % (rets[1]['rc'], rets[2]['rc'], sv[1], sv[2], 'accepted'))
             continue
         gv = [float.fromhex(x['v']) if d.typ == 'float' else x['v'] for x in gets]
         plain, rew = (5, 4242) if d.typ == 'int' else (4.0, 42.5)
